@@ -9,13 +9,18 @@ import (
 )
 
 func (r *Reader) ReadMetadata() (err error) {
+	var b box
 	defer func() {
 		if state := recover(); state != nil {
 			err = state.(error)
+			// a handler that panicked has not closed the box either: the reader continues at the next top-level box
+			if b.reader != nil {
+				_ = b.close()
+			}
 		}
 	}()
 
-	b, err := r.readBox()
+	b, err = r.readBox()
 	if err != nil {
 		return errors.Wrapf(err, "ReadMetadata")
 	}
